@@ -10,7 +10,7 @@ import Nstd.Generated.SeqConst
      r=<ret|-> n=<#new[]> d=<#delete[]> | <container> | <container> ...
 
   with the containers the op touches:
-     l<v> <size> <isEmpty> <values> <node ids>      (List;  p<v> … for PoolList)
+     l<v> <size> <isEmpty> <values> <node ids> <free-list node ids>      (List;  p<v> … for PoolList)
      a<v> <size> <capacity> <has storage> <values>  (Array)
   values / ids comma separated, `-` when empty.  `ret` = returned iterator / reference as position
   (`size` = end()), the value for front/back/[] and 0/1 for `==`.
@@ -30,7 +30,7 @@ def csv {α} (f : α → String) (xs : List α) : String :=
   if xs.isEmpty then "-" else ",".intercalate (xs.map f)
 
 def obsL (tag : String) (v : Nat) (s : LState) : String :=
-  s!"{tag}{v} {s.size} {if s.isEmpty then 1 else 0} {csv toString s.vals} {csv toString s.ids}"
+  s!"{tag}{v} {s.size} {if s.isEmpty then 1 else 0} {csv toString s.vals} {csv toString s.ids} {csv toString s.free}"
 
 def obsA (v : Nat) (s : AState) : String :=
   s!"a{v} {s.size} {s.cap} {if s.data.isSome then 1 else 0} {csv toString s.elems}"
@@ -96,6 +96,7 @@ def parseOp (ws : List String) : Option Op :=
   | ["aassign", v] => do pure (.aassign (← v.toNat?))
   | ["areserve", v, n] => do pure (.areserve (← v.toNat?) (← n.toNat?))
   | ["aresize", v, n, x] => do pure (.aresize (← v.toNat?) (← n.toNat?) (← x.toInt?))
+  | ["aresized", v, n] => do pure (.aresize (← v.toNat?) (← n.toNat?) 0)     -- `resize(n)`: the default argument `T()` is 0
   | ["aappend", v, x] => do pure (.aappend (← v.toNat?) (← x.toInt?))
   | ["aappenda", v] => do pure (.aappenda (← v.toNat?))
   | ["aappendn", v, xs] => do pure (.aappendn (← v.toNat?) (← parseInts xs))
@@ -253,17 +254,44 @@ def rawAdvance (rl : RawLock) (after : State) (op : Op) : RawLock :=
     are distinguishable by their tags, so the final arrangement after `sort()` shows the exact sequence of value
     swaps: the implementation's line is compared with the generic `sortVals` run with `ltKey`. -/
 
-def obsT (tl : List (Int × Int)) : String :=
-  s!"t {tl.length} {csv (fun (p : Int × Int) => s!"{p.1}:{p.2}") tl}"
+def obsT (pre : String) (tl : List (Int × Int)) : String :=
+  s!"{pre} {tl.length} {csv (fun (p : Int × Int) => s!"{p.1}:{p.2}") tl}"
 
-/-- ops on the tagged list: `tappend k tag`, `tprepend k tag`, `tsort`, `tclear` -/
-def stepTagged (tl : List (Int × Int)) (ws : List String) : Option (List (Int × Int)) :=
+/-- `operator<` of the harness' `TaggedLe`: a NON-strict comparison (`<=` on the key) -/
+def leKey (a b : Int × Int) : Bool := decide (a.1 ≤ b.1)
+
+/-- `operator<` of the harness' `TaggedOdd`: `(k + 2 * o.k) % 3 == 1` (C++ `%` truncates) — neither asymmetric nor
+    transitive (1 < 0, 0 < 2, 2 < 1) -/
+def ltOdd (a b : Int × Int) : Bool := Int.tmod (a.1 + 2 * b.1) 3 == 1
+
+/-- ops on a tagged list (`c` = `t`, `e` or `x`): `<c>append k tag`, `<c>prepend k tag`, `<c>sort`, `<c>clear` -/
+def stepTagged (lt : Int × Int → Int × Int → Bool) (tl : List (Int × Int)) (ws : List String) : Option (List (Int × Int)) :=
   match ws with
-  | ["tappend", k, t] => do pure (tl ++ [((← k.toInt?), (← t.toInt?))])
-  | ["tprepend", k, t] => do pure (((← k.toInt?), (← t.toInt?)) :: tl)
-  | ["tsort"] => sortVals ltKey tl
-  | ["tclear"] => some []
+  | [op, k, t] =>
+    if op.drop 1 == "append" then do pure (tl ++ [((← k.toInt?), (← t.toInt?))])
+    else if op.drop 1 == "prepend" then do pure (((← k.toInt?), (← t.toInt?)) :: tl)
+    else none
+  | [op] =>
+    if op.drop 1 == "sort" then sortVals lt tl
+    else if op.drop 1 == "clear" then some []
+    else none
   | _ => none
+
+/-- `PoolList<Multi>`: `mappend <0..7 ints>` (in-place construction through the `append` overload with that many
+    arguments), `mremove pos`, `mclear`; value sequence only -/
+def stepMulti (ml : List (List Int)) (ws : List String) : Option (List (List Int)) :=
+  match ws with
+  | ["mappend", xs] => do
+    let vs ← parseInts xs
+    if vs.length ≤ 7 then pure (ml ++ [vs]) else none
+  | ["mremove", p] => do
+    let p ← p.toNat?
+    if p < ml.length then pure (ml.eraseIdx p) else none
+  | ["mclear"] => some []
+  | _ => none
+
+def obsM (ml : List (List Int)) : String :=
+  s!"m {ml.length} {csv (fun (e : List Int) => ":".intercalate (toString e.length :: e.map toString)) ml}"
 
 /-- `PoolList<Tagged>` (elements constructed in place by the two-argument `append(A, B)`): the chain model's
     relinking is the one checked on `PoolList<int>`; here only the value sequence is followed -/
@@ -283,33 +311,55 @@ def line (s : State) (ret : Option Int) (n d : Nat) (sh : List Show) : String :=
   let r := match ret with | some x => toString x | none => "-"
   " | ".intercalate (s!"r={r} n={n} d={d}" :: sh.map (showOne s))
 
-def stepLine (stp : State × PtrPair × RawLock × List (Int × Int) × List (Int × Int)) (ws : List String) :
-    (State × PtrPair × RawLock × List (Int × Int) × List (Int × Int)) × String :=
-  let (st, pp, rl, tl, ul) := stp
-  if (ws.headD "").startsWith "t" then
-    match stepTagged tl ws with
-    | some tl' => ((st, pp, rl, tl', ul), obsT tl')
-    | none => (stp, "bad-op")
-  else if (ws.headD "").startsWith "u" then
-    match stepPoolTagged ul ws with
-    | some ul' => ((st, pp, rl, tl, ul'), "u" ++ (obsT ul').drop 1)
-    | none => (stp, "bad-op")
+structure DS where
+  st : State := init0
+  pp : PtrPair := {}
+  rl : RawLock := {}
+  tl : List (Int × Int) := []      -- List<Tagged>      (`<` on the key)
+  ul : List (Int × Int) := []      -- PoolList<Tagged>
+  el : List (Int × Int) := []      -- List<TaggedLe>    (`<=` on the key as `operator<`)
+  xl : List (Int × Int) := []      -- List<TaggedOdd>   (inconsistent `operator<`)
+  ml : List (List Int) := []       -- PoolList<Multi>
+
+def stepLine (d : DS) (ws : List String) : DS × String :=
+  let hd := ws.headD ""
+  if hd.startsWith "t" then
+    match stepTagged ltKey d.tl ws with
+    | some tl' => ({ d with tl := tl' }, obsT "t" tl')
+    | none => (d, "bad-op")
+  else if hd.startsWith "e" then
+    match stepTagged leKey d.el ws with
+    | some el' => ({ d with el := el' }, obsT "e" el')
+    | none => (d, "bad-op")
+  else if hd.startsWith "x" then
+    match stepTagged ltOdd d.xl ws with
+    | some xl' => ({ d with xl := xl' }, obsT "x" xl')
+    | none => (d, "bad-op")
+  else if hd.startsWith "u" then
+    match stepPoolTagged d.ul ws with
+    | some ul' => ({ d with ul := ul' }, obsT "u" ul')
+    | none => (d, "bad-op")
+  else if hd.startsWith "m" then
+    match stepMulti d.ml ws with
+    | some ml' => ({ d with ml := ml' }, obsM ml')
+    | none => (d, "bad-op")
   else
   match ws with
-  | ["reset"] => ((init0, {}, {}, [], []), line init0 none 0 0 allShown)
-  | ["dump"] => (stp, line st none 0 0 allShown ++ (if pp.ok then "" else " ptr-diverges") ++ (if rl.ok then "" else " raw-diverges"))
+  | ["reset"] => ({}, line init0 none 0 0 allShown)
+  | ["dump"] => (d, line d.st none 0 0 allShown ++ (if d.pp.ok then "" else " ptr-diverges") ++ (if d.rl.ok then "" else " raw-diverges"))
   | _ =>
     match parseOp ws with
-    | none => (stp, "bad-op")
+    | none => (d, "bad-op")
     | some op =>
-      match step st op with
+      match step d.st op with
       | some r =>
-        let pp' := ptrAdvance pp st r.st op
-        let rl' := rawAdvance rl r.st op
-        ((r.st, pp', rl', tl, ul), line r.st r.ret r.allocs r.frees (touched op) ++ (if pp'.ok then "" else " ptr-diverges") ++
+        let pp' := ptrAdvance d.pp d.st r.st op
+        let rl' := rawAdvance d.rl r.st op
+        ({ d with st := r.st, pp := pp', rl := rl' },
+          line r.st r.ret r.allocs r.frees (touched op) ++ (if pp'.ok then "" else " ptr-diverges") ++
           (if rl'.ok then "" else " raw-diverges"))
-      | none => (stp, "bad-op")
+      | none => (d, "bad-op")
 
 end Nstd.Seq
 
-def main : IO Unit := Nstd.Common.ioLoop ((Nstd.Seq.init0, {}, {}, [], []) : Nstd.Seq.State × Nstd.Seq.PtrPair × Nstd.Seq.RawLock × List (Int × Int) × List (Int × Int)) Nstd.Seq.stepLine
+def main : IO Unit := Nstd.Common.ioLoop ({} : Nstd.Seq.DS) Nstd.Seq.stepLine
